@@ -109,6 +109,12 @@ pub fn kf2(t: &str) -> bool {
     t.contains("\x1b ")
 }
 
+/// KF-4 class: a line-width list whose width changes again after the second line (some entry
+/// from the third on differs from the second) — not equivalent to a list of at most two entries
+pub fn kf4(lws: &[f64]) -> bool {
+    lws.len() >= 3 && lws[2..].iter().any(|w| *w != lws[1])
+}
+
 /// KF-3 class: some '\n'-terminated line, after removal of its "\r\n"/"\n", ends in '\r' and
 /// contains a non-whitespace character
 pub fn kf3(t: &str) -> bool {
